@@ -516,7 +516,8 @@ def coq_mismatches(uid, imports, case_terms, shard=100, mism="mismatches",
         if scope:
             txt += "Local Open Scope %s.\n" % scope
         txt += "Definition cases := [\n" + ";\n".join(terms) + "\n].\n"
-        txt += "Definition M := Eval vm_compute in %s cases %d%%N.\nPrint M.\n" % (mism, base)
+        txt += "Definition M := Eval vm_compute in %s cases %d%%N.\n" % (mism, base)
+        txt += "Set Printing Width 1000000.\nSet Printing Depth 1000000.\nPrint M.\n"
         rc, out = coqc_eval("cases_%s_%d" % (uid, base), txt, timeout=timeout)
         return base, rc, out
 
@@ -534,9 +535,12 @@ def coq_mismatches(uid, imports, case_terms, shard=100, mism="mismatches",
                 continue
             if body.strip() == "[]":
                 continue
-            for m in re.finditer(r"\((\d+)%N,\s*\[([^\]]*)\]\)", body):
+            found = 0
+            for m in re.finditer(r"\(\s*(\d+)%N\s*,\s*\[([^\]]*)\]\s*\)", body):
+                found += 1
                 bad.append((int(m.group(1)), [int(x) for x in re.findall(r"(\d+)%N", m.group(2))]))
-            if not re.search(r"\(\d+%N,", body):
+            # every top-level pair must have been parsed: count "(n%N," openers
+            if found == 0 or found != len(re.findall(r"\(\s*\d+%N\s*,\s*\[", body)):
                 ok = False
                 logs.append("shard %d: unexpected M = %s" % (base, body[:500]))
     return ok, bad, logs
